@@ -62,6 +62,22 @@ def run(ctx):
         ctx.case(('wave-triple', A, B, Cc))
         if abs(fac[(A, B)] * fac[(B, Cc)] - fac[(A, Cc)]) > 1e-12 * fac[(A, Cc)]:
             ctx.violation({'kind': 'wave-composition', 'triple': [A, B, Cc]}, {}, case=None)
+    # every accepted spelling of a wavelength unit (long names, any case) is the same unit, as source and as target
+    ALIAS = {'m': ['meter', 'M', 'Meter'], 'um': ['micron', 'UM', 'Micron', 'MICRON'], 'nm': ['nanometer', 'NM', 'Nanometer'], 'angstrom': ['Angstrom', 'ANGSTROM']}
+    for A in WU:
+        for B in WU:
+            for a in [A] + ALIAS[A]:
+                for b in [B] + ALIAS[B]:
+                    if (a, b) == (A, B):
+                        continue
+                    ctx.case(('wave-cell-alias', a, b))
+                    try:
+                        obs = r.Unit(a).to(b)
+                    except Exception as ex:
+                        ctx.violation({'kind': 'wave-factor-alias-' + type(ex).__name__, 'cell': [A, B]}, {'spelling': [a, b]}, case=None)
+                        continue
+                    if abs(obs - fac[(A, B)]) > 1e-12 * fac[(A, B)]:
+                        ctx.violation({'kind': 'wave-factor-alias', 'cell': [A, B]}, {'spelling': [a, b], 'expected': fac[(A, B)], 'observed': obs}, case=None)
     # ---- 9 flux cells (several wavelengths / fluxes), compositions, round trips -----------------------------------------
     waves = np.array([2e-7, 5.5e-7, 1.0e-6, 1.2e-5])
     flux = np.array([1.0, 3.5, 1e-8, 2e12])
@@ -171,6 +187,11 @@ def run(ctx):
                     ctx.violation({'kind': 'planck-units', 'waveunit': u, 'valueunit': vu}, {'T': T, 'expected': e, 'observed': rad}, case=None)
                 if not np.allclose(exi, np.pi * rad, rtol=1e-12, atol=0):
                     ctx.violation({'kind': 'exitance-is-pi-radiance', 'waveunit': u, 'valueunit': vu}, {'T': T}, case=None)
+        for u, al in (('um', 'micron'), ('nm', 'nanometer'), ('m', 'meter')):
+            w_u = w_m * 10.0 ** (-sp.EXP[u])
+            for vu in FU:
+                if not np.allclose(r.planck_radiance(w_u, T, waveunit=al, valueunit=vu), r.planck_radiance(w_u, T, waveunit=u, valueunit=vu), rtol=1e-12, atol=0):
+                    ctx.violation({'kind': 'planck-units-alias', 'waveunit': u, 'valueunit': vu}, {'T': T, 'spelling': al}, case=None)
         # numeric leaves: Wien displacement and Stefan-Boltzmann
         grid = np.geomspace(1e-8, 1e-2, 400001)
         B = r.planck_exitance(grid, T, waveunit='m', valueunit='wlam')
@@ -182,6 +203,18 @@ def run(ctx):
         sigma = 2 * np.pi ** 5 * K ** 4 / (15 * C ** 2 * H ** 3)
         if abs(total - sigma * T ** 4) > 1e-4 * sigma * T ** 4:
             ctx.violation({'kind': 'stefan-boltzmann'}, {'T': T, 'total': total, 'expected': sigma * T ** 4}, case=None)
+    # ---- the tabulated Vega fluxes: the same band flux whichever units are requested -------------------------------------------------
+    for band in ('U', 'B', 'V', 'R', 'I', 'J', 'H', 'K', 'W1', 'W2', 'W3', 'W4'):
+        f0, w0 = r.vegaflux(band, 'm', 'photlam')
+        for u in WU + ['micron']:
+            for vu in FU:
+                ctx.case(('vega', band, u, vu))
+                fl, wv = r.vegaflux(band, u, vu)
+                uu = 'um' if u == 'micron' else u
+                p, q = tab['flux']['photlam'][vu]
+                e = f0 * (H * C / w0) ** p * 10.0 ** q * 10.0 ** sp.EXP[uu]
+                if abs(wv - w0 * 10.0 ** (-sp.EXP[uu])) > 1e-12 * wv or abs(fl - e) > 1e-11 * e:
+                    ctx.violation({'kind': 'vegaflux-units', 'waveunit': u, 'valueunit': vu}, {'band': band, 'expected': [e, w0 * 10.0 ** (-sp.EXP[uu])], 'observed': [fl, wv]}, case=None)
     ctx.traces += len(cases) + npaths
     ctx.exhaustive = ctx.tier != 'quick'
     ctx.extra.update({'to_paths_replayed': npaths, 'rational_to_cases': len(cases) - 1,
